@@ -69,6 +69,7 @@ def run(prog, chk):
     chk.guard(r165, prog, chk, consumed)
     chk.guard(r167, prog, chk)
     chk.guard(r168, prog, chk)
+    chk.guard(r169, prog, chk)
 
 
 # ------------------------------------------------------------------------- tables
@@ -817,7 +818,69 @@ def r168(prog, chk):
     chk.minimum("R16.8", 10)
 
 
+# ----------------------------------------------------------------------------- R16.9
+STYLE_BITS = {  # OpenType spec: OS/2.fsSelection bits 0 ITALIC, 5 BOLD, 6 REGULAR; head.macStyle bits 0 Bold, 1 Italic
+    "setupTable_OS2": {"regular": {6}, "bold": {5}, "italic": {0}, "bold italic": {0, 5}},
+    "setupTable_head": {"regular": set(), "bold": {0}, "italic": {1}, "bold italic": {0, 1}},
+}
+
+
+def r169(prog, chk):
+    """styleMapStyleName, explicit or fallback, appears in OS/2.fsSelection and head.macStyle as the bits the
+    OpenType spec assigns to that style; the two sibling tables agree on bold / italic."""
+    ix = prog.ix
+    got = {}
+    for mname, spec in STYLE_BITS.items():
+        fi = ix.get_method(BASE_OUTLINE, mname, own=True)
+        var = None
+        for st in A.stmts_of(fi.node):
+            if isinstance(st, ast.Assign) and isinstance(st.targets[0], ast.Name) and isinstance(st.value, ast.Call) and A.callee_name(st.value) == "getAttrWithFallback" \
+                    and len(st.value.args) == 2 and A.is_const(st.value.args[1], "styleMapStyleName"):
+                var = st.targets[0].id
+        need(var is not None, f"cannot interpret {fi.short}: styleMapStyleName is not read")
+        tests = [n for n in A.body_nodes(fi.node) if isinstance(n, ast.If) and any(isinstance(x, ast.Name) and x.id == var for x in ast.walk(n.test))]
+        need(tests, f"cannot interpret {fi.short}: no dispatch on {var}")
+        nested = {id(n.orelse[0]) for n in tests if len(n.orelse) == 1}
+        heads = [n for n in tests if id(n) not in nested]
+        need(len(heads) == 1, f"cannot interpret {fi.short}: expected one if-chain on {var}")
+        table, bad = {}, []
+        node = heads[0]
+        while node is not None:
+            t = node.test
+            if not (isinstance(t, ast.Compare) and len(t.ops) == 1 and isinstance(t.ops[0], ast.Eq) and T(t.left) == var and isinstance(t.comparators[0], ast.Constant) and isinstance(t.comparators[0].value, str)):
+                bad.append(T(t))
+                break
+            bits = set()
+            for st in node.body:
+                if isinstance(st, ast.Expr) and isinstance(st.value, ast.Call) and A.callee_name(st.value) == "append" and len(st.value.args) == 1 and isinstance(st.value.args[0], ast.Constant):
+                    bits.add(st.value.args[0].value)
+                elif isinstance(st, (ast.AugAssign, ast.Assign)) and isinstance(st.value, ast.List) and all(isinstance(e, ast.Constant) for e in st.value.elts):
+                    bits |= {e.value for e in st.value.elts}
+                elif not isinstance(st, ast.Pass):
+                    raise AnalysisError(f"cannot interpret {fi.short}: `{T(st, 50)}` in the style chain")
+            table.setdefault(t.comparators[0].value, bits)
+            if len(node.orelse) == 1 and isinstance(node.orelse[0], ast.If):
+                node = node.orelse[0]
+            else:
+                need(not node.orelse, f"cannot interpret {fi.short}: else branch of the style chain")
+                node = None
+        full = {k: table.get(k, set()) for k in spec}
+        got[mname] = full
+        ok = not bad and full == spec and set(table) <= set(spec)
+        chk.ob("R16.9", f"{fi.short}|style-map bits follow the OpenType assignment", ok, where(fi, heads[0]), detail=str({k: sorted(v) for k, v in full.items()}),
+               message=f"{fi.short}: styleMapStyleName is not translated to the bits the OpenType spec assigns ({'test ' + bad[0] if bad else {k: sorted(v) for k, v in full.items()}}; expected {({k: sorted(v) for k, v in spec.items()})})")
+    o, h = got["setupTable_OS2"], got["setupTable_head"]
+    ok = all((5 in o[k]) == (0 in h[k]) and (0 in o[k]) == (1 in h[k]) for k in o)
+    chk.ob("R16.9", "OS/2.fsSelection and head.macStyle agree on bold and italic for every style name", ok, "Lib/ufo2ft/outlineCompiler.py", detail="bit 5 <-> bit 0, bit 0 <-> bit 1",
+           message="OS/2.fsSelection and head.macStyle disagree on bold / italic for some styleMapStyleName")
+    chk.minimum("R16.9", 3)
+
+
+
 MUTANTS = [
+    M("bold style sets the bold bit for everything else instead (mutation scan k=149)", "ufo2ft/outlineCompiler.py", "BaseOutlineCompiler.setupTable_OS2",
+      "styleMapStyleName == 'bold'", "styleMapStyleName != 'bold'", rule="R16.9"),
+    M("macStyle italic bit on bold", "ufo2ft/outlineCompiler.py", "BaseOutlineCompiler.setupTable_head", "macStyle = [0]", "macStyle = [1]", rule="R16.9"),
     M("subscript size: explicit 0 replaced by the UPM default (seeded C16c)", "ufo2ft/outlineCompiler.py", "BaseOutlineCompiler.setupTable_OS2",
       "v = getAttrWithFallback(font.info, 'openTypeOS2SubscriptXSize')", "v = getAttrWithFallback(font.info, 'openTypeOS2SubscriptXSize') or None", rule="R16.8"),
     M("italic angle 0 treated as absent", "ufo2ft/outlineCompiler.py", "BaseOutlineCompiler.setupTable_post",
